@@ -18,7 +18,7 @@ LEVEL = "exploration"
 RULE = (
     "Per project 25..60 distinct identifiers, each a triple (class in {current SPDX licence, deprecated licence, SPDX exception, LicenseRef-, unknown, "
     "wrong case} over the WHOLE bundled list, use in {unused, alone, 'ID+', AND, OR, parentheses, WITH (exceptions), two files, absorbable shapes 'A AND (A OR ID)' / 'A OR (A AND ID)'} carried by {header, "
-    ".license, REUSE.toml, dep5}, provision in {absent, ID.txt, ID.md, ID without extension, sub/ID.txt, ID+.txt, ID.txt with ID.txt.license}).  One "
+    ".license, REUSE.toml, dep5}, provision in {absent, ID.txt, ID.md, ID without extension, sub/ID.txt, linked/ID.txt below a symlinked sub-directory of LICENSES/, ID+.txt, ID.txt with ID.txt.license}); unknown identifiers include malformed LicenseRef- names (underscore, non-ASCII).  One "
     "`reuse lint --json` per project; missing / unused / bad / deprecated / extension-less collections and summary.used_licenses must equal the "
     "reference inventory exactly.  Non-trivial = triple with use != unused or provision != absent; distinct by (class, use, source, provision, "
     "identifier)."
@@ -29,7 +29,7 @@ ASSUMPTIONS = [
 ]
 
 USES = ["unused", "alone", "plus", "and", "or", "paren", "two-files", "absorb-and", "absorb-or"]
-PROVS = ["absent", "txt", "md", "noext", "subdir", "plus-txt", "txt+license"]
+PROVS = ["absent", "txt", "md", "noext", "subdir", "plus-txt", "txt+license", "linked-subdir"]
 SOURCES = ["header", "dotlicense", "global"]
 FILLER = "0BSD"  # partner identifier for compound expressions, always provided
 
@@ -50,7 +50,9 @@ def ident_triples(draw):
         elif cls == "licenseref":
             ident = "LicenseRef-" + draw(st.sampled_from(["custom", "ACME-1.0", "my.own", "x", "Proprietary", "Unknown-vendor", "scancode-Unknown"]))
         elif cls == "unknown":
-            ident = draw(st.sampled_from(["NotALicense", "foo-1.0", "GPL-9.9", "MIT-like", "Copyleft", "BSD", "LicenceRef-typo", "LicenseRef", "licenseref-x"]))
+            ident = draw(st.sampled_from(["NotALicense", "foo-1.0", "GPL-9.9", "MIT-like", "Copyleft", "BSD", "LicenceRef-typo", "LicenseRef", "licenseref-x",
+                                             # LicenseRef- followed by characters the SPDX idstring does not allow
+                                             "LicenseRef-my_license", "LicenseRef-Lizenz-für-Tests", "LicenseRef-a_b.c"]))
         else:
             base = draw(st.sampled_from(cur))
             ident = base.lower() if base.lower() != base else base.upper()
@@ -129,6 +131,9 @@ def build(case):
             lic_files.append(ident)
         elif p == "subdir":
             lic_files.append(f"sub/{ident}.txt")
+        elif p == "linked-subdir":
+            # LICENSES/linked is a symbolic link to a directory elsewhere in the project
+            lic_files.append(f"linked/{ident}.txt")
         elif p == "plus-txt":
             lic_files.append(f"{ident}+.txt")
         elif p == "txt+license":
@@ -151,7 +156,7 @@ def build(case):
         unique.append(rel)
     lic_files[:] = unique
     for rel in lic_files:
-        files[f"LICENSES/{rel}"] = "licence text\n"
+        files[(f"LICENSES/{rel}" if not rel.startswith("linked/") else "third_party/lic/" + rel[len("linked/"):])] = "licence text\n"
     if gkind == "toml" and tables:
         files["REUSE.toml"] = P.reuse_toml(tables)
     if gkind == "dep5" and paras:
@@ -166,6 +171,10 @@ def check_project(ctx, case):
     root = ctx.fresh_dir()
     try:
         tree.write_tree(root, files)
+        if any(r.startswith("linked/") for r in lic_files):
+            import os
+
+            os.symlink("../third_party/lic", root / "LICENSES" / "linked")
         res, data = tree.lint_json(root, mp=False)
         if data is None:
             ctx.fail(case, f"lint --json failed: {res.brief()}")
